@@ -50,6 +50,7 @@ var fnReg = map[string]FnEntry{
 	"signF":    {1, "float", "int", func(x float64) int { if x < 0 { return -1 }; if x > 0 { return 1 }; return 0 }},
 	"isNegF":   {1, "float", "bool", func(x float64) bool { return x < 0 }},
 	"StrF":     {1, "float", "string", function.StrF},
+	"IntF":     {1, "float", "int", function.IntF},
 	"PlusF":    {2, "float", "float", function.PlusF},
 	"MinusF":   {2, "float", "float", function.MinusF},
 	"MulF":     {2, "float", "float", function.MulF},
